@@ -4,7 +4,7 @@
 
   OBLIGATIONS (checked against the axiom audit by the harness):
     gen_tables_as_modelled extracted_codecs_ascii default_pref_ok
-    xml_roundtrip xml_roundtrip_events output_wellformed_events xml_roundtrip_partial
+    xml_roundtrip output_wellformed xml_roundtrip_events output_wellformed_events xml_roundtrip_partial
     xml_roundtrip_outputside_partial
     tokenizer_inverts_serializer
     ser_idempotent_partial builder_stream_not_idemOK
@@ -175,6 +175,22 @@ theorem xml_roundtrip (pref : List (Str × Str)) (hpref : prefOK pref = true)
       Reader.read (encodeText rep out) = some (mergeR (canonS s)) := by
   obtain ⟨out, h1, h2⟩ := roundtrip_xev_merged pref hpref rep hr _ h ht
   exact ⟨out, h1, by rw [h2, canonX_emptyTag s hn]⟩
+
+/-- **output_wellformed.**  On the same domain the encoded output is a
+    well-formed XML document: the reader accepts it (tokenizer: legal names,
+    quoted attribute values without `<`, legal references and characters, no
+    `]]>` in character data, comments/PIs/CDATA properly closed, declaration
+    first; namespace stage: every prefix declared in scope, no duplicate
+    declaration or attribute on a tag, matching tags, one root, no character
+    data outside it). -/
+theorem output_wellformed (pref : List (Str × Str)) (hpref : prefOK pref = true)
+    (rep : Char → Bool) (hr : AsciiRep rep) (s : Stream)
+    (hn : WellNested s) (h : docOK (emptyTag s) = true)
+    (ht : inputTextOKm rep pref (emptyTag s) = true) :
+    ∃ out, serRun SerSt.init (flatten pref (emptyTag s)) = some out ∧
+      (Reader.read (encodeText rep out)).isSome = true := by
+  obtain ⟨out, h1, h2⟩ := xml_roundtrip pref hpref rep hr s hn h ht
+  exact ⟨out, h1, by rw [h2]; rfl⟩
 
 /-- a builder stream with adjacent and empty strings is inside the hypotheses -/
 example :
